@@ -104,16 +104,21 @@ func TestVerifC02NoiseTamper(t *testing.T) {
 	// it out of the pooled buffer completely (Bf), r=pending+16 and r=70000 decrypt in the caller's buffer (D)
 	pAll := []memconn.Policy{memconn.Fixed(1), memconn.Fixed(16), memconn.Rel(0), memconn.Rel(16), memconn.Fixed(70000)}
 	pBig := []memconn.Policy{memconn.Fixed(4096), memconn.Rel(0), memconn.Fixed(70000)}
+	// zero-length reads interleaved: the edited frame is met by a Read with an empty buffer (which buffers and
+	// decrypts it), or such a Read comes right after the frame before it was consumed
+	pZero := []memconn.Policy{memconn.Fixed(16).WithZeros(1), memconn.Rel(0).WithZeros(0, 1)}
 	plans := []plan{
 		{small, "noise", pAll, [][]int{{0}, {1}}, []string{"i2r"}},
 		{small, "noise", []memconn.Policy{pAll[2], pAll[4]}, [][]int{{0}}, []string{"r2i"}},
 		{big, "noise", pBig, [][]int{{0}, {7}}, []string{"i2r"}},
 		{small, "psk>noise", []memconn.Policy{pAll[2], pAll[4]}, [][]int{{0}, {1}}, []string{"i2r"}},
+		{small, "noise", pZero, [][]int{{0}}, []string{"i2r"}},
 	}
 	if thorough {
-		plans[0] = plan{small, "noise", pAll, [][]int{{0}, {1}, {7}}, []string{"i2r", "r2i"}}
+		plans = plans[:4]
+		plans[0] = plan{small, "noise", append(append([]memconn.Policy{}, pAll...), pZero...), [][]int{{0}, {1}, {7}}, []string{"i2r", "r2i"}}
 		plans = append(plans[:1], plans[2:]...)
-		plans[1] = plan{big, "noise", append(append([]memconn.Policy{}, pBig...), pAll[0], pAll[3]), [][]int{{0}, {1}, {7}, {4096}}, []string{"i2r", "r2i"}}
+		plans[1] = plan{big, "noise", append(append([]memconn.Policy{}, pBig...), pAll[0], pAll[3], memconn.Fixed(4096).WithZeros(1)), [][]int{{0}, {1}, {7}, {4096}}, []string{"i2r", "r2i"}}
 		plans[2] = plan{small, "psk>noise", pAll, [][]int{{0}, {1}, {7}}, []string{"i2r", "r2i"}}
 		plans = append(plans, plan{big, "psk>noise", pBig, [][]int{{0}, {7}}, []string{"i2r"}})
 	}
